@@ -1,27 +1,31 @@
 """
-Regenerates lean/PedalModel/Gen/ProcStateTables.lean from the tree under test, by walking ASTs
-(nothing is imported, nothing is executed):
+Regenerates lean/PedalModel/Gen/ProcStateTables.lean from the tree under test.
+
+Primary source: the ASTs, read SEMANTICALLY (a small abstract interpreter, `Reader`, over the functions of
+pedal/core/report.py: it follows local aliases of `self.X` objects, `getattr/setattr/vars(self)` with constant names,
+loops over constant tuples of field names or of `self.X` objects, module-level constants, and it inlines calls to
+other methods of the class - instance, class and static ones - and to module-level helper functions with their
+arguments bound, so "the helper appends to the list it is given" dirties the field whose list was passed):
 
 * pedal/core/report.py, class Report:
-    - `__init__`: every `self.X = <expr>` -> (X, kind of <expr>)              -> `initFields`
-    - `clear`: its statements in order, calls to other `self.m()` methods inlined  -> `clearSteps`
-    - every other method: which `self.X` it mutates (assignment, augmented assignment, item
-      assignment/deletion, or a mutating container method anywhere down a subscript/attribute chain
-      rooted at `self.X`)                                                       -> `methodDirties`
-    - classmethods mutating `cls.X`                                             -> `classDirties`
-    - names bound in the class body                                             -> `classAttrs`
-    - `__getitem__` has the shape "missing tool -> TOOLS[name].reset(report=self)" -> `lazyToolReset`
-* every other module of the package: mutations of `<report>.X` where `<report>` is a name `report` /
-  `MAIN_REPORT` or `self.report`                                               -> `externalDirties`
-  (X not initialised by `Report.__init__` is listed in `externalNewFields`: an attribute nobody resets)
-* pedal/core/feedback.py, class Feedback: how `override` finds the backup dictionary (own `__dict__` or
-  inherited lookup), whether it registers the class with the report, whether `_restore_overrides`
-  empties the pool table, whether `override_for_pool` registers the class
-* pedal/core/environment.py: `Environment.__init__` calls `report.clear()` before it contextualises
-* pedal/tifa/__init__.py: the tool's `reset` calls `reset_builtin_modules()` before installing fresh data
+    - `__init__`: every `self.X = <expr>` (also annotated / chained / tuple / setattr / via helpers) -> `initFields`
+    - `clear`: its statements in order, helpers inlined, loops over constant field lists unrolled  -> `clearSteps`
+    - every other method: which `self.X` it may mutate, transitively through the helpers it calls -> `methodDirties`
+    - classmethods mutating `cls.X` -> `classDirties`; names bound in the class body -> `classAttrs`
+    - `__getitem__`: "a tool missing from the tool data is reset before its data is returned" -> `lazyToolReset`
+* every other module of the package: mutations of `<report>.X` where `<report>` is `report` / `MAIN_REPORT` /
+  `self.report` or a local alias of one of these -> `externalDirties` / `externalNewFields`
+* pedal/core/feedback.py (override / _restore_overrides / override_for_pool), pedal/core/environment.py
+  (`Environment.__init__` clears before it contextualises), pedal/tifa/__init__.py (`reset` rebuilds the builtin
+  module table before installing fresh data)
 
-Anything in `Report.clear` (or a method it calls) that is not one of the understood statement shapes is
-written into `unknownSteps`, which makes the table obligation fail: nothing is dropped silently.
+Second source: MEASUREMENT (harness/procstate_probe.py) of the same facts on fresh objects of the tree under test.
+It is used (1) as a cross-check of what the AST reading understood - an understood reading that the measurement
+contradicts is written into `unknownSteps` / becomes `false`, so the obligation fails - and (2) as the fallback
+where the AST has a shape the reader does not understand: the entry is then SYNTHESISED from the measurement and
+labelled `probed` in the evidence (the Lean obligation is the same one, evaluated on the synthesised entry).
+An entry that can be established neither way stays an explicit unknown (`unknownSteps`, `false`, an `.opaque`
+kind, a `<dynamic attribute>` field) and fails the obligation: nothing is guessed, nothing is dropped.
 """
 import ast
 import hashlib
@@ -30,9 +34,16 @@ import os
 from common import LEAN_DIR, REPO, lean_list, lean_str, write_if_changed
 
 MUTATORS = {"append", "add", "clear", "remove", "update", "pop", "extend", "insert", "discard", "setdefault",
-            "popitem", "sort", "reverse", "appendleft", "popleft"}
+            "popitem", "sort", "reverse", "appendleft", "popleft", "__setitem__", "__delitem__"}
+#: the resetters themselves: what they do is `clearSteps`, not a mutation a script performs
 NOT_DIRTYING = {"__init__", "clear", "full_clear", "clear_overridden_feedback"}
 REPORT_NAMES = {"report", "MAIN_REPORT"}
+COPIES = {"list", "tuple", "sorted", "set", "frozenset", "reversed", "iter"}
+INNER = {"get", "setdefault", "pop", "values", "items", "keys", "__getitem__"}
+DYNAMIC = "<dynamic attribute>"
+REGISTRY = "overridden_feedbacks"
+
+SELF, CLS, SELFDICT = ("self",), ("cls",), ("selfdict",)
 
 
 def _src(node):
@@ -42,117 +53,716 @@ def _src(node):
         return "<%s>" % type(node).__name__
 
 
-def kind_of(expr):
-    """-> Lean term of type Kind"""
-    if isinstance(expr, ast.Dict) and not expr.keys:
-        return ".dict"
-    if isinstance(expr, ast.List) and not expr.elts:
-        return ".list"
-    if isinstance(expr, ast.Constant) and expr.value is None:
-        return ".none"
-    if isinstance(expr, ast.Call) and isinstance(expr.func, ast.Name) and not expr.args and not expr.keywords:
-        if expr.func.id == "dict":
-            return ".dict"
-        if expr.func.id == "list":
-            return ".list"
-        if expr.func.id == "set":
-            return ".set"
-        return ".ctor " + lean_str(expr.func.id)
-    return ".opaque " + lean_str(_src(expr))
-
-
-def root_field(node, owner):
-    """`owner.X`, `owner.X[...]`, `owner.X[...].y[...]` ... -> X (else None)"""
-    while True:
-        if isinstance(node, ast.Attribute) and is_owner(node.value, owner):
-            return node.attr
-        if isinstance(node, ast.Subscript):
-            node = node.value
-        elif isinstance(node, ast.Attribute):
-            node = node.value
-        else:
-            return None
-
-
-def is_owner(node, owner):
-    if isinstance(owner, str):
-        return isinstance(node, ast.Name) and node.id == owner
-    # owner = "any report reference"
-    if isinstance(node, ast.Name) and node.id in REPORT_NAMES:
-        return True
-    return (isinstance(node, ast.Attribute) and node.attr == "report" and isinstance(node.value, ast.Name)
-            and node.value.id == "self")
-
-
-def mutated_fields(body, owner):
-    """names X such that the statements mutate `owner.X`"""
-    out = []
-
-    def add(x):
-        if x is not None and x not in out:
-            out.append(x)
-
-    for node in ast.walk(ast.Module(body=list(body), type_ignores=[])):
-        if isinstance(node, ast.Assign):
-            for t in node.targets:
-                for tt in (t.elts if isinstance(t, (ast.Tuple, ast.List)) else [t]):
-                    if isinstance(tt, (ast.Attribute, ast.Subscript)):
-                        add(root_field(tt, owner))
-        elif isinstance(node, (ast.AugAssign, ast.AnnAssign)):
-            if isinstance(node.target, (ast.Attribute, ast.Subscript)):
-                add(root_field(node.target, owner))
-        elif isinstance(node, ast.Delete):
-            for t in node.targets:
-                if isinstance(t, (ast.Attribute, ast.Subscript)):
-                    add(root_field(t, owner))
-        elif isinstance(node, ast.Call) and isinstance(node.func, ast.Attribute) and node.func.attr in MUTATORS:
-            add(root_field(node.func.value, owner))
-    return out
+def _dotted(node):
+    parts = []
+    while isinstance(node, ast.Attribute):
+        parts.append(node.attr)
+        node = node.value
+    if isinstance(node, ast.Name):
+        parts.append(node.id)
+        return ".".join(reversed(parts))
+    return None
 
 
 def _is_docstring(stmt):
     return isinstance(stmt, ast.Expr) and isinstance(stmt.value, ast.Constant) and isinstance(stmt.value.value, str)
 
 
-def clear_steps(methods, name, depth=0):
-    """-> (list of Lean ClearStep terms, list of unknown statement sources)"""
-    steps, unknown = [], []
-    if depth > 4 or name not in methods:
-        return steps, ["call of unknown method " + name]
-    for st in methods[name].body:
-        if _is_docstring(st) or isinstance(st, ast.Pass):
-            continue
-        # self.X.clear()
-        if (isinstance(st, ast.Expr) and isinstance(st.value, ast.Call) and isinstance(st.value.func, ast.Attribute)
-                and not st.value.args and not st.value.keywords):
-            f = st.value.func
-            if (f.attr == "clear" and isinstance(f.value, ast.Attribute) and isinstance(f.value.value, ast.Name)
-                    and f.value.value.id == "self"):
-                steps.append(".reset %s .clearCall" % lean_str(f.value.attr))
-                continue
-            # self.m()
-            if isinstance(f.value, ast.Name) and f.value.id == "self":
-                s2, u2 = clear_steps(methods, f.attr, depth + 1)
-                steps += s2
-                unknown += u2
-                continue
-        # self.X = <expr>
-        if (isinstance(st, ast.Assign) and len(st.targets) == 1 and isinstance(st.targets[0], ast.Attribute)
-                and isinstance(st.targets[0].value, ast.Name) and st.targets[0].value.id == "self"):
-            steps.append(".reset %s (.assign (%s))" % (lean_str(st.targets[0].attr), kind_of(st.value)))
-            continue
-        # for v in self.X: v._restore_overrides()
-        if (isinstance(st, ast.For) and isinstance(st.target, ast.Name) and isinstance(st.iter, ast.Attribute)
-                and isinstance(st.iter.value, ast.Name) and st.iter.value.id == "self" and not st.orelse
-                and len(st.body) == 1 and isinstance(st.body[0], ast.Expr) and isinstance(st.body[0].value, ast.Call)):
-            c = st.body[0].value
-            if (isinstance(c.func, ast.Attribute) and c.func.attr == "_restore_overrides" and isinstance(c.func.value, ast.Name)
-                    and c.func.value.id == st.target.id and not c.args and not c.keywords):
-                steps.append(".restoreEach %s" % lean_str(st.iter.attr))
-                continue
-        unknown.append(_src(st).split("\n")[0][:120])
-    return steps, unknown
+def _is_log_call(stmt):
+    if not (isinstance(stmt, ast.Expr) and isinstance(stmt.value, ast.Call)):
+        return False
+    d = _dotted(stmt.value.func) or ""
+    return d.split(".")[0] in ("log", "logger", "logging", "LOG", "_log", "warnings")
 
+
+# ---------------------------------------------------------------------------------------------------------
+# kinds
+
+def kind_of(expr, consts=None, depth=0):
+    """-> Lean term of type Kind"""
+    if isinstance(expr, ast.Name) and consts and expr.id in consts and depth < 3:
+        return kind_of(consts[expr.id], consts, depth + 1)
+    if isinstance(expr, ast.Dict) and not expr.keys:
+        return ".dict"
+    if isinstance(expr, ast.List) and not expr.elts:
+        return ".list"
+    if isinstance(expr, ast.Constant):
+        if expr.value is None:
+            return ".none"
+        if isinstance(expr.value, (bool, int, float, str, bytes)):
+            # an immutable literal: assigning the same literal again restores the value
+            return ".ctor " + lean_str("const " + repr(expr.value))
+    if isinstance(expr, ast.Tuple) and not expr.elts:
+        return ".ctor " + lean_str("const ()")
+    if isinstance(expr, ast.Call) and not expr.args and not expr.keywords:
+        d = _dotted(expr.func)
+        if d is not None:
+            last = d.split(".")[-1]
+            if last in ("dict", "list", "set"):
+                return "." + last
+            return ".ctor " + lean_str(last)
+    return ".opaque " + lean_str(_src(expr)[:80])
+
+
+def is_opaque(kind):
+    return kind.startswith(".opaque")
+
+
+def reset_ok(kind, how):
+    """Lean `resetOk`, replicated for the cross-check"""
+    if how == "clearCall":
+        return kind in (".dict", ".list", ".set")
+    return kind == how[1] and not is_opaque(kind)
+
+
+def step_lean(step):
+    if step[0] == "restoreEach":
+        return ".restoreEach %s" % lean_str(step[1])
+    how = ".clearCall" if step[2] == "clearCall" else "(.assign (%s))" % step[2][1]
+    return ".reset %s %s" % (lean_str(step[1]), how)
+
+
+def table_resets(init_fields, steps, f):
+    kinds = dict(reversed(init_fields))        # List.lookup finds the first
+    return any(s[0] == "reset" and s[1] == f and f in kinds and reset_ok(kinds[f], s[2]) for s in steps)
+
+
+def table_restores(init_fields, steps):
+    """Lean `restoresOverrides`"""
+    idx = next((i for i, s in enumerate(steps) if s == ("restoreEach", REGISTRY)), None)
+    if idx is None:
+        return False
+    return (table_resets(init_fields, steps[idx + 1:], REGISTRY)
+            and not table_resets(init_fields, steps[:idx], REGISTRY))
+
+
+# ---------------------------------------------------------------------------------------------------------
+# the abstract interpreter over pedal/core/report.py
+
+class Reader:
+    """
+    Values are sets of references:
+      SELF / CLS / SELFDICT, ("field", X, exact) = the object stored in self.X (exact) or something reached through it,
+      ("clsfield", X, exact), ("str", s), ("seq", (refset, ...)) = a literal tuple/list of values.
+    Effects are ("field", X) / ("clsfield", X): the method may mutate that attribute or what it holds.
+    """
+
+    def __init__(self, tree, class_name):
+        self.class_name = class_name
+        self.cls = next(n for n in tree.body if isinstance(n, ast.ClassDef) and n.name == class_name)
+        self.methods = {n.name: n for n in self.cls.body if isinstance(n, (ast.FunctionDef, ast.AsyncFunctionDef))}
+        self.funcs = {n.name: n for n in tree.body if isinstance(n, (ast.FunctionDef, ast.AsyncFunctionDef))}
+        counts, self.consts = {}, {}
+        for n in tree.body:
+            tgt = None
+            if isinstance(n, ast.Assign) and len(n.targets) == 1 and isinstance(n.targets[0], ast.Name):
+                tgt, val = n.targets[0].id, n.value
+            elif isinstance(n, ast.AnnAssign) and isinstance(n.target, ast.Name) and n.value is not None:
+                tgt, val = n.target.id, n.value
+            if tgt is not None:
+                counts[tgt] = counts.get(tgt, 0) + 1
+                self.consts[tgt] = val
+        self.consts = {k: v for k, v in self.consts.items() if counts[k] == 1 and self._literal(v)}
+        self.effects = set()
+
+    def _literal(self, v):
+        if isinstance(v, ast.Constant):
+            return True
+        if isinstance(v, (ast.Tuple, ast.List, ast.Set)):
+            return all(self._literal(x) for x in v.elts)
+        if isinstance(v, ast.Dict):
+            return not v.keys
+        if isinstance(v, ast.Call) and not v.args and not v.keywords and _dotted(v.func) in ("frozenset", "tuple"):
+            return True
+        if isinstance(v, ast.Call) and _dotted(v.func) in ("frozenset", "tuple") and len(v.args) == 1 and not v.keywords:
+            return self._literal(v.args[0])
+        return False
+
+    @staticmethod
+    def kind(fn):
+        for d in fn.decorator_list:
+            if isinstance(d, ast.Name) and d.id in ("staticmethod", "classmethod"):
+                return d.id
+        return "method"
+
+    # ---- expressions ---------------------------------------------------------------------------
+    def ev(self, e, env, stack=()):
+        out = set()
+        if e is None:
+            return out
+        if isinstance(e, ast.Name):
+            if e.id in env:
+                return set(env[e.id])
+            if e.id in self.consts:
+                return self.ev(self.consts[e.id], {}, stack)
+            if e.id == self.class_name:
+                return {CLS}
+            return out
+        if isinstance(e, ast.Constant):
+            return {("str", e.value)} if isinstance(e.value, str) else out
+        if isinstance(e, (ast.Tuple, ast.List, ast.Set)):
+            return {("seq", tuple(frozenset(self.ev(x, env, stack)) for x in e.elts))}
+        if isinstance(e, ast.Starred):
+            return self.ev(e.value, env, stack)
+        if isinstance(e, ast.Attribute):
+            for b in self.ev(e.value, env, stack):
+                if b == SELF:
+                    if e.attr == "__dict__":
+                        out.add(SELFDICT)
+                    elif e.attr == "__class__":
+                        out.add(CLS)
+                    else:
+                        out.add(("field", e.attr, True))
+                elif b == CLS:
+                    out.add(("clsfield", e.attr, True))
+                elif b[0] in ("field", "clsfield"):
+                    out.add((b[0], b[1], False))
+            return out
+        if isinstance(e, ast.Subscript):
+            for b in self.ev(e.value, env, stack):
+                if b == SELFDICT:
+                    out |= self._named(SELF, self.ev(e.slice, env, stack))
+                elif b[0] in ("field", "clsfield"):
+                    out.add((b[0], b[1], False))
+                elif b[0] == "seq":
+                    for x in b[1]:
+                        out |= x
+            return out
+        if isinstance(e, ast.IfExp):
+            return self.ev(e.body, env, stack) | self.ev(e.orelse, env, stack)
+        if isinstance(e, ast.BoolOp):
+            for v in e.values:
+                out |= self.ev(v, env, stack)
+            return out
+        if isinstance(e, ast.NamedExpr):
+            v = self.ev(e.value, env, stack)
+            if isinstance(e.target, ast.Name):
+                env[e.target.id] = set(env.get(e.target.id, ())) | v
+            return v
+        if isinstance(e, ast.Call):
+            return self.ev_call(e, env, stack)
+        return out
+
+    def _named(self, owner, names):
+        """attributes of SELF / CLS selected by evaluated names"""
+        tag = "field" if owner == SELF else "clsfield"
+        strs = [n[1] for n in names if n[0] == "str"]
+        if not strs:
+            return {(tag, DYNAMIC, True)}
+        return {(tag, s, True) for s in strs}
+
+    def ev_call(self, c, env, stack):
+        out = set()
+        d = _dotted(c.func)
+        if d in ("getattr",) and len(c.args) >= 2:
+            for b in self.ev(c.args[0], env, stack):
+                if b in (SELF, CLS):
+                    out |= self._named(b, self.ev(c.args[1], env, stack))
+                elif b[0] in ("field", "clsfield"):
+                    out.add((b[0], b[1], False))
+            return out
+        if d == "vars" and len(c.args) == 1:
+            return {SELFDICT} if SELF in self.ev(c.args[0], env, stack) else out
+        if d == "type" and len(c.args) == 1:
+            return {CLS} if SELF in self.ev(c.args[0], env, stack) else out
+        if d in COPIES:
+            return out                              # a new container (its ELEMENTS are handled by `elements`)
+        callee = self.callee(c, env, stack)
+        if callee is not None:
+            return self.inline(callee, c, env, stack)
+        if isinstance(c.func, ast.Attribute) and c.func.attr in INNER:
+            for b in self.ev(c.func.value, env, stack):
+                if b[0] in ("field", "clsfield"):
+                    out.add((b[0], b[1], False))
+                elif b == SELFDICT and c.func.attr in ("get", "setdefault", "pop", "__getitem__") and c.args:
+                    out |= self._named(SELF, self.ev(c.args[0], env, stack))
+        return out
+
+    def elements(self, e, env, stack):
+        """what a loop variable ranging over `e` may be bound to"""
+        while isinstance(e, ast.Call) and _dotted(e.func) in COPIES and e.args:
+            e = e.args[0]
+        if isinstance(e, ast.Call) and _dotted(e.func) == "enumerate" and e.args:
+            return self.elements(e.args[0], env, stack)
+        if isinstance(e, ast.BinOp):
+            return self.elements(e.left, env, stack) | self.elements(e.right, env, stack)
+        out = set()
+        for b in self.ev(e, env, stack):
+            if b[0] == "seq":
+                for x in b[1]:
+                    out |= x
+            elif b[0] in ("field", "clsfield"):
+                out.add((b[0], b[1], False))
+        return out
+
+    # ---- helpers ------------------------------------------------------------------------------
+    def callee(self, c, env, stack):
+        """-> (name, FunctionDef, how) for a call of another function of this file"""
+        f = c.func
+        if isinstance(f, ast.Name) and f.id in self.funcs and f.id not in env:
+            return (f.id, self.funcs[f.id], "plain")
+        if isinstance(f, ast.Attribute) and f.attr in self.methods:
+            base = self.ev(f.value, env, stack)
+            if isinstance(f.value, ast.Call) and _dotted(f.value.func) == "super":
+                return None
+            k = self.kind(self.methods[f.attr])
+            if SELF in base:
+                return (f.attr, self.methods[f.attr], {"method": "bound", "classmethod": "boundcls",
+                                                       "staticmethod": "plain"}[k])
+            if CLS in base:
+                return (f.attr, self.methods[f.attr], {"method": "plain", "classmethod": "boundcls",
+                                                       "staticmethod": "plain"}[k])
+        return None
+
+    def bind(self, fn, how, c, env, stack):
+        params = [a.arg for a in fn.args.posonlyargs + fn.args.args]
+        env2 = {}
+        if how == "bound" and params:
+            env2[params[0]] = {SELF}
+            params = params[1:]
+        elif how == "boundcls" and params:
+            env2[params[0]] = {CLS}
+            params = params[1:]
+        defaults = fn.args.defaults
+        for p, dflt in zip(params[len(params) - len(defaults):], defaults):
+            env2[p] = self.ev(dflt, {}, stack)
+        if c is not None:
+            for p, a in zip(params, c.args):
+                env2[p] = self.ev(a, env, stack)
+            for kw in c.keywords:
+                if kw.arg is not None:
+                    env2[kw.arg] = self.ev(kw.value, env, stack)
+        return env2
+
+    def inline(self, callee, c, env, stack):
+        name, fn, how = callee
+        if name in NOT_DIRTYING or name in stack or len(stack) > 6:
+            return set()
+        env2 = self.bind(fn, how, c, env, stack)
+        self.run(fn.body, env2, stack + (name,))
+        out = set()
+        for node in ast.walk(fn):
+            if isinstance(node, ast.Return) and node.value is not None:
+                out |= self.ev(node.value, env2, stack + (name,))
+        return out
+
+    # ---- statements (may-analysis: every effect that could happen) ---------------------------
+    def effect(self, refs):
+        for b in refs:
+            if b[0] in ("field", "clsfield"):
+                self.effects.add((b[0], b[1]))
+
+    def mutate_target(self, t, env, stack):
+        if isinstance(t, ast.Attribute):
+            for b in self.ev(t.value, env, stack):
+                if b == SELF:
+                    self.effects.add(("field", t.attr))
+                elif b == CLS:
+                    self.effects.add(("clsfield", t.attr))
+                elif b[0] in ("field", "clsfield"):
+                    self.effects.add((b[0], b[1]))
+        elif isinstance(t, ast.Subscript):
+            for b in self.ev(t.value, env, stack):
+                if b == SELFDICT:
+                    self.effect(self._named(SELF, self.ev(t.slice, env, stack)))
+                elif b[0] in ("field", "clsfield"):
+                    self.effects.add((b[0], b[1]))
+        elif isinstance(t, (ast.Tuple, ast.List)):
+            for x in t.elts:
+                self.mutate_target(x, env, stack)
+        elif isinstance(t, ast.Starred):
+            self.mutate_target(t.value, env, stack)
+
+    def bind_target(self, t, refs, env):
+        if isinstance(t, ast.Name):
+            env[t.id] = set(env.get(t.id, ())) | set(refs)
+        elif isinstance(t, (ast.Tuple, ast.List)):
+            for x in t.elts:
+                self.bind_target(x, refs, env)
+        elif isinstance(t, ast.Starred):
+            self.bind_target(t.value, refs, env)
+
+    def calls(self, node, env, stack):
+        """effects of every call below `node`"""
+        for sub in ast.walk(node):
+            if isinstance(sub, (ast.ListComp, ast.SetComp, ast.DictComp, ast.GeneratorExp)):
+                for g in sub.generators:
+                    self.bind_target(g.target, self.elements(g.iter, env, stack), env)
+            if isinstance(sub, ast.NamedExpr):
+                self.ev(sub, env, stack)
+            if not isinstance(sub, ast.Call):
+                continue
+            d = _dotted(sub.func)
+            if d in ("setattr", "delattr") and len(sub.args) >= 2:
+                for b in self.ev(sub.args[0], env, stack):
+                    if b in (SELF, CLS):
+                        self.effect(self._named(b, self.ev(sub.args[1], env, stack)))
+                    elif b[0] in ("field", "clsfield"):
+                        self.effects.add((b[0], b[1]))
+                continue
+            callee = self.callee(sub, env, stack)
+            if callee is not None:
+                self.inline(callee, sub, env, stack)
+                continue
+            if isinstance(sub.func, ast.Attribute) and sub.func.attr in MUTATORS:
+                for b in self.ev(sub.func.value, env, stack):
+                    if b[0] in ("field", "clsfield"):
+                        self.effects.add((b[0], b[1]))
+                    elif b == SELFDICT:
+                        if sub.func.attr in ("pop", "setdefault", "__setitem__", "__delitem__") and sub.args:
+                            self.effect(self._named(SELF, self.ev(sub.args[0], env, stack)))
+                        else:
+                            self.effects.add(("field", DYNAMIC))
+
+    def run(self, body, env, stack=()):
+        for _ in range(3):                 # aliases may be used before the statement that makes them (loops)
+            for st in body:
+                self.stmt(st, env, stack)
+
+    def stmt(self, st, env, stack):
+        if isinstance(st, (ast.FunctionDef, ast.AsyncFunctionDef)):
+            for s in st.body:
+                self.stmt(s, env, stack)
+            return
+        if isinstance(st, ast.Assign):
+            self.calls(st.value, env, stack)
+            for t in st.targets:
+                if (isinstance(t, (ast.Tuple, ast.List)) and isinstance(st.value, (ast.Tuple, ast.List))
+                        and len(t.elts) == len(st.value.elts)):
+                    for tt, vv in zip(t.elts, st.value.elts):
+                        self.bind_target(tt, self.ev(vv, env, stack), env)
+                        self.mutate_target(tt, env, stack)
+                else:
+                    self.bind_target(t, self.ev(st.value, env, stack), env)
+                    self.mutate_target(t, env, stack)
+            return
+        if isinstance(st, ast.AnnAssign):
+            if st.value is not None:
+                self.calls(st.value, env, stack)
+                self.bind_target(st.target, self.ev(st.value, env, stack), env)
+                self.mutate_target(st.target, env, stack)
+            return
+        if isinstance(st, ast.AugAssign):
+            self.calls(st.value, env, stack)
+            if isinstance(st.target, ast.Name):
+                self.effect(env.get(st.target.id, ()))          # `x = self.X; x += [...]` mutates the list in place
+            else:
+                self.mutate_target(st.target, env, stack)
+            return
+        if isinstance(st, ast.Delete):
+            for t in st.targets:
+                self.mutate_target(t, env, stack)
+            return
+        if isinstance(st, (ast.For, ast.AsyncFor)):
+            self.calls(st.iter, env, stack)
+            self.bind_target(st.target, self.elements(st.iter, env, stack), env)
+            for s in st.body + st.orelse:
+                self.stmt(s, env, stack)
+            return
+        if isinstance(st, (ast.With, ast.AsyncWith)):
+            for item in st.items:
+                self.calls(item.context_expr, env, stack)
+                if item.optional_vars is not None:
+                    self.bind_target(item.optional_vars, self.ev(item.context_expr, env, stack), env)
+            for s in st.body:
+                self.stmt(s, env, stack)
+            return
+        # if / while / try / match / expression statements / return / raise ...: every expression, every nested block
+        for field, value in ast.iter_fields(st):
+            if isinstance(value, ast.expr):
+                self.calls(value, env, stack)
+            elif isinstance(value, list):
+                for x in value:
+                    if isinstance(x, ast.stmt):
+                        self.stmt(x, env, stack)
+                    elif isinstance(x, ast.expr):
+                        self.calls(x, env, stack)
+                    elif isinstance(x, ast.ExceptHandler):
+                        for s in x.body:
+                            self.stmt(s, env, stack)
+                    elif hasattr(ast, "match_case") and isinstance(x, ast.match_case):
+                        for s in x.body:
+                            self.stmt(s, env, stack)
+
+    def method_effects(self, name):
+        fn = self.methods[name]
+        self.effects = set()
+        how = {"method": "bound", "classmethod": "boundcls", "staticmethod": "plain"}[self.kind(fn)]
+        env = self.bind(fn, how, None, {}, ())
+        self.run(fn.body, env, (name,))
+        return set(self.effects)
+
+    # ---- ordered, strict reading of __init__ / clear ------------------------------------------
+    def exact_field(self, e, env):
+        """`e` is exactly the object stored in self.X -> X"""
+        refs = self.ev(e, env)
+        if len(refs) == 1:
+            (b,) = refs
+            if b[0] == "field" and b[2] and b[1] != DYNAMIC:
+                return b[1]
+        return None
+
+    def self_attr_target(self, t, env):
+        if isinstance(t, ast.Attribute) and self.ev(t.value, env) == {SELF}:
+            return t.attr
+        if isinstance(t, ast.Subscript) and self.ev(t.value, env) == {SELFDICT}:
+            ks = self.ev(t.slice, env)
+            if len(ks) == 1 and next(iter(ks))[0] == "str":
+                return next(iter(ks))[1]
+        return None
+
+    def steps(self, body, env, stack, what):
+        """-> (ordered steps, statements not understood)"""
+        steps, unknown = [], []
+
+        def give_up(st):
+            unknown.append("%s: %s" % (what, _src(st).split("\n")[0][:120]))
+
+        for st in body:
+            if _is_docstring(st) or isinstance(st, ast.Pass) or _is_log_call(st):
+                continue
+            # self.X = <expr> / self.a = self.b = <expr> / self.a, self.b = <e1>, <e2> / self.X: T = <expr>
+            if isinstance(st, (ast.Assign, ast.AnnAssign)) and st.value is not None:
+                targets = st.targets if isinstance(st, ast.Assign) else [st.target]
+                pairs, ok = [], True
+                for t in targets:
+                    if (isinstance(t, (ast.Tuple, ast.List)) and isinstance(st.value, (ast.Tuple, ast.List))
+                            and len(t.elts) == len(st.value.elts)):
+                        pairs += list(zip(t.elts, st.value.elts))
+                    else:
+                        pairs.append((t, st.value))
+                local = []
+                for t, v in pairs:
+                    f = self.self_attr_target(t, env)
+                    if f is not None:
+                        local.append(("reset", f, ("assign", kind_of(v, self.consts))))
+                    elif isinstance(t, ast.Name) and not self._has_effects(v, env, stack):
+                        env[t.id] = self.ev(v, env)             # a local (alias); nothing happens to the report
+                    else:
+                        ok = False
+                if ok:
+                    steps += local
+                else:
+                    give_up(st)
+                continue
+            if isinstance(st, ast.Delete) and all(
+                    isinstance(t, ast.Subscript) and isinstance(t.slice, ast.Slice) and t.slice.lower is None
+                    and t.slice.upper is None and t.slice.step is None and self.exact_field(t.value, env)
+                    for t in st.targets):
+                steps += [("reset", self.exact_field(t.value, env), "clearCall") for t in st.targets]     # del self.X[:]
+                continue
+            if isinstance(st, ast.Expr) and isinstance(st.value, ast.Call):
+                c = st.value
+                d = _dotted(c.func)
+                if isinstance(c.func, ast.Attribute) and c.func.attr == "clear" and not c.args and not c.keywords:
+                    f = self.exact_field(c.func.value, env)
+                    if f is not None:
+                        steps.append(("reset", f, "clearCall"))                                       # self.X.clear()
+                        continue
+                if d == "setattr" and len(c.args) == 3 and self.ev(c.args[0], env) == {SELF}:
+                    ks = self.ev(c.args[1], env)
+                    if len(ks) == 1 and next(iter(ks))[0] == "str":
+                        steps.append(("reset", next(iter(ks))[1], ("assign", kind_of(c.args[2], self.consts))))
+                        continue
+                callee = self.callee(c, env, stack)
+                if callee is not None and callee[0] not in stack and len(stack) < 6:
+                    name, fn, how = callee
+                    s2, u2 = self.steps(fn.body, self.bind(fn, how, c, env, stack), stack + (name,), what)
+                    steps += s2
+                    unknown += u2
+                    continue
+                give_up(st)
+                continue
+            if isinstance(st, ast.For) and not st.orelse:
+                # for c in self.X: c._restore_overrides()
+                it = st.iter
+                while isinstance(it, ast.Call) and _dotted(it.func) in COPIES and len(it.args) == 1 and not it.keywords:
+                    it = it.args[0]
+                f = self.exact_field(it, env)
+                if (f is not None and isinstance(st.target, ast.Name) and len(st.body) == 1
+                        and self._is_restore_call(st.body[0], lambda e: isinstance(e, ast.Name) and e.id == st.target.id)):
+                    steps.append(("restoreEach", f))
+                    continue
+                # a loop over a constant sequence (field names / self.X objects): unrolled
+                refs = self.ev(st.iter, env)
+                if len(refs) == 1 and next(iter(refs))[0] == "seq" and isinstance(st.target, ast.Name):
+                    for elem in next(iter(refs))[1]:
+                        env2 = dict(env)
+                        env2[st.target.id] = set(elem)
+                        s2, u2 = self.steps(st.body, env2, stack, what)
+                        steps += s2
+                        unknown += u2
+                    continue
+                give_up(st)
+                continue
+            if isinstance(st, ast.While) and not st.orelse and len(st.body) == 1:
+                # while self.X: self.X.pop()._restore_overrides()
+                f = self.exact_field(st.test, env)
+                if f is not None and self._is_restore_call(
+                        st.body[0], lambda e: isinstance(e, ast.Call) and isinstance(e.func, ast.Attribute)
+                        and e.func.attr == "pop" and self.exact_field(e.func.value, env) == f):
+                    steps += [("restoreEach", f), ("reset", f, "clearCall")]
+                    continue
+                give_up(st)
+                continue
+            if isinstance(st, ast.If) and not st.orelse:
+                # if self.X: self.X.clear()      (an empty container is already as __init__ made it)
+                f = self.exact_field(st.test, env)
+                if f is not None:
+                    s2, u2 = self.steps(st.body, dict(env), stack, what)
+                    if not u2 and s2 and all(s == ("reset", f, "clearCall") for s in s2):
+                        steps += s2
+                        continue
+                give_up(st)
+                continue
+            give_up(st)
+        return steps, unknown
+
+    @staticmethod
+    def _is_restore_call(st, is_receiver):
+        return (isinstance(st, ast.Expr) and isinstance(st.value, ast.Call) and isinstance(st.value.func, ast.Attribute)
+                and st.value.func.attr == "_restore_overrides" and not st.value.args and not st.value.keywords
+                and is_receiver(st.value.func.value))
+
+    def _has_effects(self, e, env, stack):
+        saved, self.effects = self.effects, set()
+        self.calls(e, dict(env), stack)
+        found, self.effects = bool(self.effects), saved
+        return found
+
+    def method_steps(self, name, what):
+        fn = self.methods[name]
+        return self.steps(fn.body, self.bind(fn, "bound", None, {}, ()), (name,), what)
+
+
+# ---------------------------------------------------------------------------------------------------------
+# other modules of the package: writes to a report
+
+def _is_report_ref(node, aliases):
+    if isinstance(node, ast.Name):
+        return node.id in REPORT_NAMES or node.id in aliases
+    return (isinstance(node, ast.Attribute) and node.attr == "report" and isinstance(node.value, ast.Name)
+            and node.value.id == "self")
+
+
+def _root_field(node, aliases):
+    """`<report>.X`, `<report>.X[...]`, `<report>.X[...].y[...]` ... -> X (else None)"""
+    while True:
+        if isinstance(node, ast.Attribute) and _is_report_ref(node.value, aliases):
+            return node.attr
+        if isinstance(node, (ast.Subscript, ast.Attribute)):
+            node = node.value
+        else:
+            return None
+
+
+def _scopes(tree):
+    return [tree] + [n for n in ast.walk(tree) if isinstance(n, (ast.FunctionDef, ast.AsyncFunctionDef, ast.Lambda))]
+
+
+def _scope_aliases(scope, seed):
+    """-> (names bound to a report in this scope, {name: fields whose object it holds})"""
+    nodes = list(ast.walk(scope))
+    aliases, held = set(seed), {}
+    for _ in range(2):
+        for node in nodes:
+            if isinstance(node, ast.Assign) and len(node.targets) == 1 and isinstance(node.targets[0], ast.Name):
+                name = node.targets[0].id
+                if _is_report_ref(node.value, aliases) and name not in REPORT_NAMES:
+                    aliases.add(name)                          # rep = self.report
+                else:
+                    v = node.value
+                    if isinstance(v, ast.Call) and isinstance(v.func, ast.Attribute) and v.func.attr in INNER:
+                        v = v.func.value
+                    f = _root_field(v, aliases)
+                    if f is not None and isinstance(v, (ast.Attribute, ast.Subscript)):
+                        held.setdefault(name, set()).add(f)     # items = report.X
+    return aliases, held
+
+
+def report_parameters(modules):
+    """{id(FunctionDef): parameter names that receive a report at some call site in the package} - functions of the
+    same module and functions imported from another module of the package, to a fixpoint"""
+    defs = {}
+    for modname, (_, tree) in modules.items():
+        for n in tree.body:
+            if isinstance(n, (ast.FunctionDef, ast.AsyncFunctionDef)):
+                defs[(modname, n.name)] = n
+    extra = {}
+    for _ in range(3):
+        for modname, (rel, tree) in modules.items():
+            pkg_parts = modname.split(".") if rel.endswith("__init__.py") else modname.split(".")[:-1]
+            imports = {}
+            for n in ast.walk(tree):
+                if isinstance(n, ast.ImportFrom):
+                    base = (n.module or "") if n.level == 0 else ".".join(
+                        pkg_parts[:len(pkg_parts) - (n.level - 1)] + ([n.module] if n.module else []))
+                    for a in n.names:
+                        imports[a.asname or a.name] = (base, a.name)
+            for scope in _scopes(tree):
+                aliases, _ = _scope_aliases(scope, extra.get(id(scope), ()))
+                for c in ast.walk(scope):
+                    if not (isinstance(c, ast.Call) and isinstance(c.func, ast.Name)):
+                        continue
+                    target = defs.get((modname, c.func.id)) or defs.get(imports.get(c.func.id))
+                    if target is None:
+                        continue
+                    params = [a.arg for a in target.args.posonlyargs + target.args.args]
+                    for p, a in list(zip(params, c.args)) + [(k.arg, k.value) for k in c.keywords if k.arg in params]:
+                        if _is_report_ref(a, aliases) and p not in REPORT_NAMES:
+                            extra.setdefault(id(target), set()).add(p)
+    return extra
+
+
+def external_mutations(tree, extra=None):
+    """fields X such that the module mutates `<report>.X` (directly, through a local alias of the report or of the
+    object stored in the field, or in a helper function that is handed the report)"""
+    out = []
+    extra = extra or {}
+
+    def add(x):
+        if x is not None and x not in out:
+            out.append(x)
+
+    for scope in _scopes(tree):
+        nodes = list(ast.walk(scope))
+        aliases, held = _scope_aliases(scope, extra.get(id(scope), ()))
+        for node in nodes:
+            if isinstance(node, ast.Assign):
+                for t in node.targets:
+                    for tt in (t.elts if isinstance(t, (ast.Tuple, ast.List)) else [t]):
+                        if isinstance(tt, (ast.Attribute, ast.Subscript)):
+                            add(_root_field(tt, aliases))
+                            base = tt.value
+                            while isinstance(base, (ast.Attribute, ast.Subscript)):
+                                base = base.value
+                            if isinstance(base, ast.Name) and isinstance(tt, ast.Subscript):
+                                for f in sorted(held.get(base.id, ())):
+                                    add(f)
+            elif isinstance(node, (ast.AugAssign, ast.AnnAssign)):
+                if isinstance(node.target, (ast.Attribute, ast.Subscript)):
+                    add(_root_field(node.target, aliases))
+                elif isinstance(node, ast.AugAssign) and isinstance(node.target, ast.Name):
+                    for f in sorted(held.get(node.target.id, ())):
+                        add(f)
+            elif isinstance(node, ast.Delete):
+                for t in node.targets:
+                    if isinstance(t, (ast.Attribute, ast.Subscript)):
+                        add(_root_field(t, aliases))
+            elif isinstance(node, ast.Call):
+                d = _dotted(node.func)
+                if d in ("setattr", "delattr") and len(node.args) >= 2 and _is_report_ref(node.args[0], aliases):
+                    a = node.args[1]
+                    add(a.value if isinstance(a, ast.Constant) and isinstance(a.value, str) else DYNAMIC)
+                elif isinstance(node.func, ast.Attribute) and node.func.attr in MUTATORS:
+                    add(_root_field(node.func.value, aliases))
+                    if isinstance(node.func.value, ast.Name):
+                        for f in sorted(held.get(node.func.value.id, ())):
+                            add(f)
+    return out
+
+
+# ---------------------------------------------------------------------------------------------------------
 
 def _calls(body, pred):
     for node in ast.walk(ast.Module(body=list(body), type_ignores=[])):
@@ -188,62 +798,92 @@ def _strs(xs):
     return lean_list([lean_str(x) for x in xs])
 
 
-def analyse():
-    info = {}
-    report = _find_class(_parse("pedal/core/report.py"), "Report")
-    methods = _methods(report)
-    # -- __init__
-    init_fields, unknown = [], []
+def _flat_statements(fn, methods, depth=0, seen=()):
+    """top-level statements of fn with calls to `self.m()` helpers of the same class inlined (unconditional part only)"""
+    out = []
+    for st in fn.body:
+        c = st.value if isinstance(st, ast.Expr) and isinstance(st.value, ast.Call) else None
+        if (c is not None and isinstance(c.func, ast.Attribute) and isinstance(c.func.value, ast.Name)
+                and c.func.value.id == "self" and c.func.attr in methods and c.func.attr not in seen and depth < 4):
+            out += _flat_statements(methods[c.func.attr], methods, depth + 1, seen + (c.func.attr,))
+        else:
+            out.append(st)
+    return out
+
+
+def read_ast():
+    """everything the ASTs say; `understood[...]` tells which entries the reader could establish"""
+    info, notes = {}, {}
+    tree = _parse("pedal/core/report.py")
+    rd = Reader(tree, "Report")
+    methods = rd.methods
     if "__init__" not in methods or "clear" not in methods:
         raise ValueError("Report.__init__ / Report.clear not found")
-    for st in methods["__init__"].body:
-        if _is_docstring(st):
-            continue
-        if (isinstance(st, ast.Assign) and len(st.targets) == 1 and isinstance(st.targets[0], ast.Attribute)
-                and isinstance(st.targets[0].value, ast.Name) and st.targets[0].value.id == "self"):
-            init_fields.append((st.targets[0].attr, kind_of(st.value)))
-        elif isinstance(st, ast.Expr) and isinstance(st.value, ast.Call) and _src(st.value.func).startswith("log."):
-            continue
+    # -- __init__
+    isteps, iunknown = rd.method_steps("__init__", "__init__")
+    init_fields = []
+    for s in isteps:
+        if s[0] == "reset" and s[2] != "clearCall":
+            if s[1] not in [f for f, _ in init_fields]:
+                init_fields.append((s[1], s[2][1]))
+            else:                                       # assigned twice: the last one counts
+                init_fields = [(f, s[2][1] if f == s[1] else k) for f, k in init_fields]
         else:
-            unknown.append("__init__: " + _src(st).split("\n")[0][:120])
-    info["init_fields"] = init_fields
+            iunknown.append("__init__: a statement that is not an assignment: %r" % (s,))
+    info["init_fields"], info["init_unknown"] = init_fields, iunknown
     # -- clear
-    steps, u = clear_steps(methods, "clear")
-    unknown += ["clear: " + x for x in u]
-    info["clear_steps"] = steps
+    info["clear_steps"], info["clear_unknown"] = rd.method_steps("clear", "clear")
     # -- other methods
     method_dirties, class_dirties = [], []
     for name, fn in methods.items():
         if name in NOT_DIRTYING:
             continue
-        first = fn.args.args[0].arg if fn.args.args else None
-        is_cls = any(isinstance(d, ast.Name) and d.id == "classmethod" for d in fn.decorator_list)
-        if first is None:
+        k = rd.kind(fn)
+        if k == "staticmethod" or not (fn.args.posonlyargs + fn.args.args):
             continue
-        fs = mutated_fields(fn.body, first)
-        if fs:
-            (class_dirties if is_cls else method_dirties).append((name, fs))
-    info["method_dirties"], info["class_dirties"] = method_dirties, class_dirties
+        eff = rd.method_effects(name)
+        fs = sorted({x for t, x in eff if t == "field"})
+        cs = sorted({x for t, x in eff if t == "clsfield"})
+        if k == "classmethod":
+            if cs:
+                class_dirties.append((name, cs))
+        else:
+            if fs:
+                method_dirties.append((name, fs))
+            if cs:
+                class_dirties.append((name, cs))
+    # the order of the definitions in the class means nothing
+    info["method_dirties"], info["class_dirties"] = sorted(method_dirties), sorted(class_dirties)
     class_attrs = []
-    for n in report.body:
+    for n in rd.cls.body:
         if isinstance(n, ast.Assign):
             class_attrs += [t.id for t in n.targets if isinstance(t, ast.Name)]
-        elif isinstance(n, ast.AnnAssign) and isinstance(n.target, ast.Name):
+        elif isinstance(n, ast.AnnAssign) and isinstance(n.target, ast.Name) and n.value is not None:
             class_attrs.append(n.target.id)
     info["class_attrs"] = class_attrs
-    # -- __getitem__: lazy reset
+    # -- __getitem__: lazy reset.  Shapes: `if t not in self.D: ...reset(report=self)` or
+    #    `if t in self.D: return self.D[t]` followed by `...reset(report=self)`
     lazy = False
     gi = methods.get("__getitem__")
+    is_reset = lambda c: (isinstance(c.func, ast.Attribute) and c.func.attr == "reset"                # noqa: E731
+                          and (any(k.arg == "report" and _src(k.value) == "self" for k in c.keywords)
+                               or any(_src(a) == "self" for a in c.args)))
     if gi is not None:
-        for st in gi.body:
-            if (isinstance(st, ast.If) and isinstance(st.test, ast.Compare) and len(st.test.ops) == 1
-                    and isinstance(st.test.ops[0], ast.NotIn) and _src(st.test.comparators[0]) == "self._tool_data"):
-                lazy = _calls(st.body, lambda c: isinstance(c.func, ast.Attribute) and c.func.attr == "reset"
-                              and any(k.arg == "report" and _src(k.value) == "self" for k in c.keywords))
+        body = gi.body
+        for i, st in enumerate(body):
+            if not (isinstance(st, ast.If) and isinstance(st.test, ast.Compare) and len(st.test.ops) == 1
+                    and _src(st.test.comparators[0]).startswith("self.")):
+                continue
+            if isinstance(st.test.ops[0], ast.NotIn) and _calls(st.body, is_reset):
+                lazy = True
+            if (isinstance(st.test.ops[0], ast.In) and st.body and isinstance(st.body[-1], ast.Return) and not st.orelse
+                    and _calls(body[i + 1:], is_reset)):
+                lazy = True
+            if isinstance(st.test.ops[0], ast.In) and st.orelse and _calls(st.orelse, is_reset):
+                lazy = True
     info["lazy_tool_reset"] = lazy
     # -- the rest of the package
-    known = {f for f, _ in init_fields}
-    external, external_new = [], []
+    external, modules = {}, {}
     pkg = os.path.join(REPO, "pedal")
     for d, _, files in sorted(os.walk(pkg)):
         for fn in sorted(files):
@@ -253,19 +893,32 @@ def analyse():
             if rel == os.path.join("pedal", "core", "report.py"):
                 continue
             try:
-                tree = _parse(rel)
+                t = _parse(rel)
             except SyntaxError:
                 continue
-            for f in mutated_fields(tree.body, None):
-                (external if f in known else external_new).append((f, rel))
-    info["external"] = sorted({f for f, _ in external})
-    info["external_new"] = sorted({"%s (%s)" % (f, r) for f, r in external_new})
+            modname = rel[:-3].replace(os.sep, ".")
+            modules[modname[:-len(".__init__")] if modname.endswith(".__init__") else modname] = (rel, t)
+    extra = report_parameters(modules)
+    for modname, (rel, t) in modules.items():
+        for f in external_mutations(t, extra):
+            external.setdefault(f, rel)
+    info["external_all"] = external
     # -- Feedback.override & co.
     fb = _methods(_find_class(_parse("pedal/core/feedback.py"), "Feedback"))
 
     def own_dict_lookup(fn):
-        return _calls(fn.body, lambda c: _src(c.func) == "cls.__dict__.get" and c.args
-                      and isinstance(c.args[0], ast.Constant) and c.args[0].value == "_override_backups")
+        def pred(c):
+            s = _src(c.func)
+            return ((s in ("cls.__dict__.get", "vars(cls).get") and c.args and isinstance(c.args[0], ast.Constant)
+                     and c.args[0].value == "_override_backups"))
+        if _calls(fn.body, pred):
+            return True
+        for node in ast.walk(fn):
+            if (isinstance(node, ast.Compare) and len(node.ops) == 1 and isinstance(node.ops[0], (ast.In, ast.NotIn))
+                    and isinstance(node.left, ast.Constant) and node.left.value == "_override_backups"
+                    and _src(node.comparators[0]) in ("cls.__dict__", "vars(cls)")):
+                return True
+        return False
 
     def inherited_lookup(fn):
         for node in ast.walk(fn):
@@ -282,19 +935,19 @@ def analyse():
     info["backup_per_class"] = (own_dict_lookup(ov) and own_dict_lookup(rs)
                                 and not inherited_lookup(ov) and not inherited_lookup(rs))
     info["override_registers"] = _calls(ov.body, registers)
-    info["restore_clears_pools"] = _calls(rs.body, lambda c: _src(c.func) == "cls._pools.clear")
+    info["restore_clears_pools"] = _calls(rs.body, lambda c: _src(c.func) in ("cls._pools.clear", "Feedback._pools.clear"))
     info["pool_override_registers"] = ofp is not None and _calls(ofp.body, registers)
-    # -- Environment.__init__
-    env = _methods(_find_class(_parse("pedal/core/environment.py"), "Environment"))["__init__"]
+    # -- Environment.__init__: `report.clear()` unconditionally, before the first contextualize
+    envm = _methods(_find_class(_parse("pedal/core/environment.py"), "Environment"))
     pos_clear = pos_ctx = None
-    for i, st in enumerate(env.body):
+    for i, st in enumerate(_flat_statements(envm["__init__"], envm)):
         s = _src(st)
         if pos_clear is None and isinstance(st, ast.Expr) and s in ("report.clear()", "self.report.clear()"):
             pos_clear = i
         if pos_ctx is None and "contextualize(" in s:
             pos_ctx = i
     info["env_clears_first"] = pos_clear is not None and pos_ctx is not None and pos_clear < pos_ctx
-    # -- tifa reset
+    # -- tifa reset: `reset_builtin_modules()` unconditionally, before the tool data is installed
     tifa = _parse("pedal/tifa/__init__.py")
     rebuilds = False
     for n in tifa.body:
@@ -302,13 +955,181 @@ def analyse():
             pos_rb = pos_set = None
             for i, st in enumerate(n.body):
                 s = _src(st)
-                if pos_rb is None and s == "reset_builtin_modules()":
+                if pos_rb is None and isinstance(st, ast.Expr) and s.endswith("reset_builtin_modules()"):
                     pos_rb = i
-                if pos_set is None and s.startswith("report[TOOL_NAME] ="):
+                if pos_set is None and isinstance(st, (ast.Assign, ast.Return)) and "report[TOOL_NAME] =" in s:
                     pos_set = i
             rebuilds = pos_rb is not None and pos_set is not None and pos_rb < pos_set
     info["tifa_reset_rebuilds"] = rebuilds
-    info["unknown"] = unknown
+    return info, notes
+
+
+# ---------------------------------------------------------------------------------------------------------
+# AST reading + measurement -> the table
+
+def combine(a, m):
+    """a = read_ast()[0], m = procstate_probe.measure() (or None) -> (table info, provenance)"""
+    prov = {}
+    unknown = []
+    m = m or {}
+    mc = m.get("clear") or {}
+    measured_clear = mc.get("fields") if not mc.get("error") else None
+    probed_init = m.get("init_fields")
+
+    # ---- initFields
+    init_fields = list(a["init_fields"])
+    if a["init_unknown"]:
+        if probed_init is not None:
+            have = {f for f, _ in init_fields}
+            init_fields += [(f, k) for f, k in probed_init if f not in have]
+            prov["initFields"] = ("AST + probed (vars(Report()) supplies what these statements of __init__ create: %s)"
+                                  % "; ".join(a["init_unknown"])[:400])
+        else:
+            unknown += a["init_unknown"]
+            prov["initFields"] = "AST, incomplete"
+    else:
+        prov["initFields"] = "AST"
+        if probed_init is not None:
+            have = {f for f, _ in init_fields}
+            missing = [(f, k) for f, k in probed_init if f not in have]
+            if missing:
+                # attributes a fresh report has although no statement of __init__ was seen to create them
+                init_fields += missing
+                prov["initFields"] = "AST + probed (a fresh report also has: %s)" % ", ".join(f for f, _ in missing)
+    names = [f for f, _ in init_fields]
+
+    # ---- clearSteps
+    steps = list(a["clear_steps"])
+    if not a["clear_unknown"]:
+        prov["clearSteps"] = "AST"
+        if measured_clear is not None:
+            patched = []
+            for f in names:
+                if f not in measured_clear:
+                    continue
+                ast_says, real = table_resets(init_fields, steps, f), measured_clear[f]["reset"]
+                if ast_says == real:
+                    continue
+                kinds = [k for g, k in init_fields if g == f] + [s[2][1] for s in steps
+                                                                 if s[0] == "reset" and s[1] == f and s[2] != "clearCall"]
+                if real and any(is_opaque(k) for k in kinds) and any(s[0] == "reset" and s[1] == f for s in steps):
+                    # the statement is there, but the expression is one the reader cannot classify: take the
+                    # measured kind for this field
+                    k = measured_clear[f]["kind"]
+                    init_fields = [(g, k if g == f else kk) for g, kk in init_fields]
+                    how = "clearCall" if measured_clear[f]["kept"] and k in (".dict", ".list", ".set") else ("assign", k)
+                    steps = [("reset", f, how) if (s[0] == "reset" and s[1] == f) else s for s in steps]
+                    patched.append(f)
+                else:
+                    unknown.append("clear: the statements read from the AST %s field %s, the measured clear() %s"
+                                   % ("reset" if ast_says else "do not reset", f,
+                                      "puts it back" if real else "does not put it back"))
+            if REGISTRY in names and "restored" in mc:
+                if table_restores(init_fields, steps) != bool(mc["restored"]):
+                    unknown.append("clear: restore loop read from the AST: %s, measured: every registered class restored: %s"
+                                   % (table_restores(init_fields, steps), mc["restored"]))
+            prov["clearSteps"] = "AST, confirmed by measurement (%d dirtied reports)" % mc.get("trials", 0)
+            if patched:
+                prov["clearSteps"] += "; kinds of %s probed" % ", ".join(patched)
+    elif measured_clear is not None:
+        # fallback (b): synthesise the statements from what clear() measurably does
+        if probed_init is not None:
+            pk = dict(probed_init)
+            init_fields = [(f, pk.get(f, k)) for f, k in init_fields]
+        steps = []
+        for f in names:
+            rec = measured_clear.get(f)
+            if f == REGISTRY or rec is None or not rec["reset"] or rec["seen"] == 0:
+                continue
+            k = rec["kind"]
+            steps.append(("reset", f, "clearCall" if rec["kept"] and k in (".dict", ".list", ".set") else ("assign", k)))
+        rec = measured_clear.get(REGISTRY)
+        if mc.get("restored"):
+            steps.append(("restoreEach", REGISTRY))
+        if rec is not None and rec["reset"]:
+            k = rec["kind"]
+            steps.append(("reset", REGISTRY, "clearCall" if rec["kept"] and k in (".dict", ".list", ".set") else ("assign", k)))
+        prov["clearSteps"] = ("probed: synthesised from clear() on %d dirtied reports (AST reading left %d constructs not "
+                              "understood: %s)" % (mc.get("trials", 0), len(a["clear_unknown"]),
+                                                   "; ".join(a["clear_unknown"])[:400]))
+    else:
+        unknown += a["clear_unknown"]
+        prov["clearSteps"] = "AST, incomplete; no measurement (%s)" % (mc.get("error") or "probe unavailable")
+
+    # ---- methodDirties: AST (may-mutate, helpers followed) united with what a call measurably changes
+    md = [(n, list(fs)) for n, fs in a["method_dirties"]]
+    added = []
+    for n, changed in sorted((m.get("method_dirties") or {}).items()):
+        if n in NOT_DIRTYING or not changed:
+            continue
+        cur = next((fs for nn, fs in md if nn == n), None)
+        if cur is None:
+            md.append((n, list(changed)))
+            added.append("%s: %s" % (n, ", ".join(changed)))
+        else:
+            extra = [f for f in changed if f not in cur]
+            if extra:
+                cur.extend(extra)
+                added.append("%s: %s" % (n, ", ".join(extra)))
+    md.sort()
+    prov["methodDirties"] = "AST" + ("; probed additions (%s)" % "; ".join(added) if added else
+                                     ", measured calls of %d methods change nothing more" % len(m.get("method_dirties") or {}))
+
+    # ---- the rest of the package
+    known = set(names)
+    ext_all = dict(a["external_all"])
+    ext_probed = [f for f in (m.get("external_dirties") or []) if f not in ext_all]
+    for f in ext_probed:
+        ext_all[f] = "measured: a resolver of pedal.resolvers changes it"
+    prov["externalDirties"] = "AST" + ("; probed additions (%s)" % ", ".join(ext_probed) if ext_probed else "")
+    external = sorted(f for f in ext_all if f in known)
+    external_new = sorted("%s (%s)" % (f, r) for f, r in ext_all.items() if f not in known)
+
+    # ---- boolean shape facts: the measurement decides where it could be made; the AST reading otherwise
+    def decide(key, ast_value, measured):
+        if measured is None:
+            prov[key] = "AST"
+            return bool(ast_value)
+        if measured and ast_value:
+            prov[key] = "AST, confirmed by measurement"
+        elif measured:
+            prov[key] = "probed (AST shape not recognised)"
+        elif ast_value:
+            prov[key] = "AST shape recognised, but the measured behaviour contradicts it"
+        else:
+            prov[key] = "AST and measurement: no"
+        return bool(measured)
+
+    mo = m.get("override") or {}
+    info = {
+        "init_fields": init_fields, "clear_steps": steps, "method_dirties": md, "class_dirties": a["class_dirties"],
+        "class_attrs": a["class_attrs"], "external": external, "external_new": external_new, "unknown": unknown,
+        "lazy_tool_reset": decide("lazyToolReset", a["lazy_tool_reset"], m.get("lazy_tool_reset")),
+        "backup_per_class": decide("backupPerClass", a["backup_per_class"], mo.get("backup_per_class")),
+        "override_registers": decide("overrideRegisters", a["override_registers"], mo.get("override_registers")),
+        "restore_clears_pools": decide("restoreClearsPools", a["restore_clears_pools"], mo.get("restore_clears_pools")),
+        "pool_override_registers": decide("poolOverrideRegisters", a["pool_override_registers"],
+                                          mo.get("pool_override_registers")),
+        "env_clears_first": decide("envClearsFirst", a["env_clears_first"], m.get("env_clears_first")),
+        "tifa_reset_rebuilds": decide("tifaResetRebuilds", a["tifa_reset_rebuilds"], m.get("tifa_reset_rebuilds")),
+    }
+    return info, prov
+
+
+def analyse(probe=True):
+    a, _ = read_ast()
+    m = None
+    if probe:
+        try:
+            import procstate_probe
+            m = procstate_probe.measure()
+        except Exception as e:       # noqa: BLE001
+            m = None
+            a.setdefault("probe_error", "%s: %s" % (type(e).__name__, e))
+    info, prov = combine(a, m)
+    info["provenance"] = prov
+    if "probe_error" in a:
+        prov["probe"] = "unavailable: " + a["probe_error"][:200]
     return info
 
 
@@ -316,13 +1137,14 @@ def render(info):
     pairs = lambda xs: lean_list(["(%s, %s)" % (lean_str(a), _strs(b)) for a, b in xs])     # noqa: E731
     lines = [
         "import PedalModel.ProcStateTypes",
-        "/- GENERATED by harness/translate_procstate.py from the ASTs of the tree under test. Do not edit. -/",
+        "/- GENERATED by harness/translate_procstate.py from the tree under test (ASTs; measurement where noted in the",
+        "   evidence). Do not edit. -/",
         "namespace Pedal.Gen.ProcState",
         "open Pedal.ProcState",
         "",
         "def tables : Tables where",
         "  initFields := " + lean_list(["(%s, %s)" % (lean_str(f), k) for f, k in info["init_fields"]]),
-        "  clearSteps := " + lean_list(info["clear_steps"]),
+        "  clearSteps := " + lean_list([step_lean(s) for s in info["clear_steps"]]),
         "  methodDirties := " + pairs(info["method_dirties"]),
         "  classDirties := " + pairs(info["class_dirties"]),
         "  classAttrs := " + _strs(info["class_attrs"]),
@@ -350,9 +1172,14 @@ def translate():
     changed = write_if_changed(path, src)
     return {"file": "PedalModel/Gen/ProcStateTables.lean", "sha1": hashlib.sha1(src.encode()).hexdigest()[:12],
             "changed": changed, "init_fields": [f for f, _ in info["init_fields"]], "unknown": info["unknown"],
-            "external_new": info["external_new"]}
+            "external_new": info["external_new"], "provenance": info["provenance"]}
 
 
 if __name__ == "__main__":
     import json
-    print(json.dumps(analyse(), indent=1))
+    import sys
+    res = analyse(probe="--no-probe" not in sys.argv)
+    if "--lean" in sys.argv:
+        print(render(res))
+    else:
+        print(json.dumps(res, indent=1, default=str))
